@@ -370,6 +370,12 @@ def Bag.compileGraph (b : Bag) (o : BNode) : Graph :=
   { nodes := (b.leaves o).map mkLeaf ++ b.order.map (b.mkEdge o),
     inputs := b.inputs.map (b.idx o), output := b.idx o o }
 
+/-- `_compile((n1, ..., nk))`: a `ProductEdge` over the nodes of the requested names, into a new node -/
+def Bag.withProduct (b : Bag) (outs : List BNode) : Bag × BNode :=
+  let p : BNode := { id := b.next, name := "(" ++ ", ".intercalate (names outs) ++ ")" }
+  ({ b with edges := b.edges ++ [{ edge := .product, ins := outs, out := p }], next := b.next + 1 }, p)
+
+
 /-! ### The hypothesis of the bag theorems, executable -/
 
 def Bag.nodes3 (b : Bag) : List BNode := b.inputs ++ b.outputs ++ edgeNodes b.edges
